@@ -36,7 +36,13 @@ def run_history(cfg, ops):
     per_batch = []
     with C.scratch() as folder:
         cfg2 = dict(cfg, saving_folder=str(folder / "ckpt"))
-        cal = C.build(cfg2)
+        samplers = None
+        if cfg.get("same_instance"):
+            # the line-up lists the SAME sampler object more than once (cfg['same_instance'] maps a position to the position whose object it reuses)
+            samplers = [C.make_sampler(s_) for s_ in lineup]
+            for pos, src in cfg["same_instance"].items():
+                samplers[int(pos)] = samplers[int(src)]
+        cal = C.build(cfg2, samplers=samplers)
         rec = C.Recorder()
         with rec:
             for op in ops:
@@ -50,12 +56,14 @@ def run_history(cfg, ops):
                     in_force = cfg["alt_lineups"][int(op[1])]
                     cal.set_samplers([C.make_sampler(s_) for s_ in in_force])
                 else:
+                    before = cal.current_batch_index
                     try:
                         with quiet():
                             cal.calibrate(int(op[1]))
                     except Exception as e:  # noqa: BLE001
                         return [("rr-calibrate-raises", f"ops={ops}: calibrate({op[1]}) raised {type(e).__name__}: {e}")], None
-                    per_batch += [in_force] * int(op[1])
+                    # (with a convergence precision a call may stop early: count the batches it really ran)
+                    per_batch += [in_force] * (cal.current_batch_index - before)
                     saved = in_force
         nb = cal.current_batch_index
         if len(rec.sched_calls) != nb or len(rec.sample_calls) != nb or len(per_batch) != nb:
@@ -65,6 +73,12 @@ def run_history(cfg, ops):
             d, s = rec.sched_calls[i], rec.sample_calls[i]
             n = len(per_batch[i])
             exp = per_batch[i][i % n]
+            if cfg.get("same_instance") and d["index"] != i % n:
+                # one object sits at several positions: "the first position holding this object" is not the position that was served;
+                # judge by the object's position class instead (same object <=> same representative position)
+                rep = {int(k): int(v_) for k, v_ in cfg["same_instance"].items()}
+                if rep.get(i % n, i % n) == d["index"]:
+                    d = dict(d, index=i % n)
             if d["index"] != i % n:
                 v.append(("rr-wrong-sampler", f"ops={ops}: lifetime batch {i} was produced by sampler #{d['index']} ({d['cls']}), round-robin prescribes #{i % n} ({exp['cls']})"))
                 break
@@ -225,6 +239,15 @@ def main(ctx):
           if h[0][0] == "c" and h[-1][0] == "c" and sum(o[0] == "s" for o in h) in (1, 2) and not any(a[0] == "s" and b[0] == "s" for a, b in zip(h, h[1:]))]
     for k in range(0, len(sh), 40):
         cells.append({"kind": "rr", "cfg": {"lineup": base, "alt_lineups": alts, "seed": S, "dims": 2, "model": "const2", "ensemble": 1}, "histories": sh[k:k + 40]})
+    # calls that end through the early stop (the loss is exactly 0 from the first batch on: every call runs one batch), then go on
+    conv = [list(h) for L_ in range(2, 6) for h in itertools.product(("c1", "c2", "r"), repeat=L_) if h[0] != "r" and h[-1] != "r" and not any(a == "r" and b == "r" for a, b in zip(h, h[1:]))]
+    for lu in ([{"cls": "Halton", "bs": 1}, {"cls": "RandomUniform", "bs": 2}, {"cls": "RSequence", "bs": 1}], [{"cls": "RandomUniform", "bs": 2}, {"cls": "Halton", "bs": 1}]):
+        for k in range(0, len(conv), 60):
+            cells.append({"kind": "rr", "cfg": {"lineup": lu, "seed": S, "dims": 2, "model": "const2", "real_const": 0.25, "convergence_precision": 0, "ensemble": 1}, "histories": conv[k:k + 60]})
+    # the same sampler OBJECT listed at several positions (a double share of the batches)
+    for lu, same in (([{"cls": "Halton", "bs": 2}, {"cls": "RandomUniform", "bs": 1}, {"cls": "RandomUniform", "bs": 1}], {"2": 1}),
+                     ([{"cls": "RSequence", "bs": 1}, {"cls": "Halton", "bs": 3}, {"cls": "RSequence", "bs": 1}, {"cls": "Halton", "bs": 3}], {"2": 0, "3": 1})):
+        cells.append({"kind": "rr", "cfg": {"lineup": lu, "same_instance": same, "seed": S, "dims": 2, "model": "const2", "ensemble": 1}, "histories": hist[::2]})
     eight = [{"cls": NAMES6[i % 6], "bs": 1 + i % 3} for i in range(8)]
     cells.append({"kind": "rr", "cfg": {"lineup": eight, "seed": S, "dims": 2, "model": "const2", "ensemble": 1}, "histories": [["c2"] * 10, ["c1", "c2", "r", "c2", "c2", "r", "c1", "c2", "c2", "c2", "r", "c2", "c2"], ["c2", "c2", "c2", "r"] + ["c1"] * 11]})
     shapes = [[1], [2], [3], [1, 2], [2, 2]] if ctx.quick else [[1], [2], [3], [1, 1], [1, 2], [2, 1], [2, 2], [3, 3], [1, 1, 2]]
